@@ -275,5 +275,38 @@ def rule_winalias_live(ctx, prop: str) -> RuleResult:
             )
         )
     res.sample(f"liveness collectors: {[f.qualname for f in used_fs]}; raw-name sites: {len(raw)}")
+    # the alias map itself must be closed under chains of windows (w2 = w1[...], w1 = a[...]):
+    # either the WindowStmt case stores an already-resolved name, or the resolver iterates
+    c = m.cls("MemoryAnalysis")
+    mem_s = c.methods.get("mem_s")
+    from .compiler import cases_for
+
+    cs = cases_for(mem_s, adts, "s", "LoopIR", "WindowStmt") if mem_s is not None else []
+    resolvers = set()
+    for f in used_fs:
+        for n in f.body_nodes():
+            if isinstance(n, ast.Call) and isinstance(n.func, ast.Attribute) and isinstance(n.func.value, ast.Name) and n.func.value.id == "self":
+                resolvers.add(n.func.attr)
+    resolvers -= {"mem_s", "mem_stmts"}
+    iterative = any(isinstance(n, ast.While) for r in resolvers if r in c.methods for n in c.methods[r].body_nodes())
+    stores = []
+    for cse in cs:
+        for st in cse.body:
+            for n in ast.walk(st):
+                if isinstance(n, ast.Assign) and isinstance(n.targets[0], ast.Subscript) and dotted(n.targets[0].value) not in ("self.mem_env",):
+                    stores.append(n)
+    if resolvers:
+        res.instances += 1
+        res.nontrivial += 1
+        ok = iterative or (bool(stores) and all(isinstance(n.value, ast.Call) and last_name(n.value) in resolvers for n in stores))
+        res.ob(ok)
+        res.sample(f"alias resolvers {sorted(resolvers)}; WindowStmt stores resolved names: {ok}")
+        if not ok:
+            ln = stores[0].lineno if stores else (cs[0].lineno if cs else mem_s.lineno)
+            res.add(
+                Finding("WINALIAS", MA, ln, "MemoryAnalysis.mem_s", "alias-map:unresolved-store",
+                        "a window is recorded as an alias of the *name* on its right-hand side, not of the buffer that name resolves to, and the resolver does one step only: "
+                        "for a window of a window (w2 = w1[..], w1 = a[..]) a use of w2 does not keep `a` alive, so free(a) is emitted before the last access through w2")
+            )
     res.floor = 4
     return res
